@@ -170,6 +170,14 @@ func registerIntrinsics(P *Program) {
 	I[vrtPkg+"Thorough"] = func(m *Machine, fn *ssa.Function, args []Value) Value {
 		return m.st.Bool(m.P.opts.Tier == "thorough")
 	}
+	I[vrtPkg+"Variant"] = func(m *Machine, fn *ssa.Function, args []Value) Value {
+		n := m.constInt(args[0].(*Term), "Variant n")
+		if int64(m.P.opts.Variant) >= n {
+			m.end("novariant", "variant %d of %d", m.P.opts.Variant, n)
+		}
+		m.nondets = append(m.nondets, NondetRec{Name: "variant", Kind: "variant", Val: int64(m.P.opts.Variant)})
+		return m.st.Const(64, uint64(m.P.opts.Variant))
+	}
 	I[vrtPkg+"Symbolic"] = func(m *Machine, fn *ssa.Function, args []Value) Value {
 		return m.st.True
 	}
